@@ -182,7 +182,7 @@ class Discharger:
     def R4(self, s):
         if s.fn != 'rsbdd::print_sized_line' or s.what != 'panic': return None
         binc = self.F.bin()
-        callee_t = binc.thir.get(s.fn)
+        callee_t = binc.ithir.get(s.fn)
         if callee_t is None: return None
         # the panic must be in a wildcard arm of a match on parameter #2 whose other arms are the two leaves
         ms = [e for e in walk(callee_t['body']) if e['k'] == 'Match']
@@ -199,7 +199,7 @@ class Discharger:
         ncalls = 0
         for c in self.F.crates:
             if c.kind == 'test': continue
-            for name, t in c.thir.items():
+            for name, t in c.ithir.items():
                 for m in walk(t['body']):
                     if m['k'] != 'Match': continue
                     seen_choice = False
@@ -220,7 +220,7 @@ class Discharger:
         total = 0
         for c in self.F.crates:
             if c.kind == 'test': continue
-            for name, t in c.thir.items():
+            for name, t in c.ithir.items():
                 total += sum(1 for e in walk(t['body']) if e['k'] == 'Call' and callee_name(e) == s.fn)
         if ncalls and ncalls == total:
             return 'R4: all %d call sites pass a value bound after an unguarded Choice(..) arm, so the wildcard arm is dead' % ncalls
